@@ -2,7 +2,7 @@ INIT GenInit
 NEXT Next
 CONSTANTS
   W = 6
-  PrefixAlphabet <- GenPrefixes
+  PrefixAlphabet <- GenPrefixesQuick
   ClassLists <- GenClassLists
   MaxEntries = 3
   Pkts = {}
